@@ -1,22 +1,35 @@
 --------------------------- MODULE BlockClientTrace ---------------------------
 (* Batch validation of recorded executions of the real block-wise client      *)
 (* (harness/blockclientdrive.py) against the clauses of BlockClientObs.       *)
+(* A trace holds one transfer or several concurrent ones (event field tr):    *)
+(* one monitor summary per transfer; `end' closes all of them.                *)
 EXTENDS BlockClientObs, Json, IOUtils, TLC, TLCExt
 
 Traces == JsonDeserialize(IOEnv.TRACE_FILE)
+MaxTr == 3
 
 VARIABLES tid, l, obs, firstBad
 tvars == <<tid, l, obs, firstBad>>
 
-TInit == /\ tid \in 1..Len(Traces) /\ l = 1 /\ obs = ObsInit /\ firstBad = {}
+TInit == /\ tid \in 1..Len(Traces) /\ l = 1 /\ obs = [i \in 1..MaxTr |-> ObsInit] /\ firstBad = {}
+
+AllBad(ob) == UNION {ob[i].bad : i \in 1..MaxTr}
 
 TNext == /\ l <= Len(Traces[tid])
-         /\ obs' = ObsEvent(obs, Traces[tid][l])
-         /\ firstBad' = firstBad \cup {<<c, l>> : c \in obs'.bad \ obs.bad}
+         /\ LET e == Traces[tid][l] IN
+            obs' = IF e.k = "end" THEN [i \in 1..MaxTr |-> ObsEvent(obs[i], e)]
+                   ELSE IF e.tr \in 1..MaxTr THEN [obs EXCEPT ![e.tr] = ObsEvent(@, e)]
+                   ELSE obs
+         /\ firstBad' = firstBad \cup {<<c, l>> : c \in AllBad(obs') \ AllBad(obs)}
          /\ l' = l + 1
          /\ UNCHANGED tid
 
 TSpec == TInit /\ [][TNext]_tvars
 
-Report == (l = Len(Traces[tid]) + 1) => PrintT(<<"TRACE", tid, l - 1, firstBad>>)
+\* what was judged / met on the trace (evidence counters)
+Facts == UNION {obs[i].judged \cup (IF obs[i].viol THEN {"violation-delivered"} ELSE {})
+                              \cup (IF obs[i].enverr THEN {"error-response-delivered"} ELSE {})
+                              \cup (IF obs[i].grown THEN {"server-growth-delivered"} ELSE {})
+                              \cup (IF obs[i].hidden THEN {"hidden-change-delivered"} ELSE {}) : i \in 1..MaxTr}
+Report == (l = Len(Traces[tid]) + 1) => (PrintT(<<"TRACE", tid, l - 1, firstBad>>) /\ PrintT(<<"FACTS", tid, Facts>>))
 =============================================================================
